@@ -1,0 +1,39 @@
+#ifndef OCCA_INTERNAL_UTILS_VERIF_HEADER
+#define OCCA_INTERNAL_UTILS_VERIF_HEADER
+
+// Verification hooks: live-object counters for backend objects.
+// Compiled in only with -DLIBOCCA_OCCA_VERIF; otherwise the macros expand to nothing.
+
+#ifdef LIBOCCA_OCCA_VERIF
+#  include <atomic>
+
+namespace occa {
+  namespace verif {
+    enum kind_t {
+      kDevice = 0,
+      kBuffer,
+      kMemory,
+      kMemoryPool,
+      kKernel,
+      kStream,
+      kStreamTag,
+      kKindCount
+    };
+
+    inline std::atomic<long> created[kKindCount];
+    inline std::atomic<long> destroyed[kKindCount];
+
+    inline long live(const int kind) {
+      return created[kind].load() - destroyed[kind].load();
+    }
+  }
+}
+
+#  define OCCA_VERIF_CREATED(KIND)   (++::occa::verif::created[::occa::verif::KIND])
+#  define OCCA_VERIF_DESTROYED(KIND) (++::occa::verif::destroyed[::occa::verif::KIND])
+#else
+#  define OCCA_VERIF_CREATED(KIND)
+#  define OCCA_VERIF_DESTROYED(KIND)
+#endif
+
+#endif
